@@ -41,6 +41,9 @@ func strOrList(r *h.Rand, items ...string) interface{} {
 func weakScalar(r *h.Rand) interface{} {
 	switch r.Intn(6) {
 	case 0:
+		if r.Chance(40) {
+			return []int{20240917, 1048576, 4294967296, 1700000000, 10000000}[r.Intn(5)] // seven and more digits
+		}
 		return r.Range(0, 5000)
 	case 1:
 		return r.Bool()
